@@ -219,7 +219,7 @@ fn consumer_case(rng: &mut Rng) -> J {
     // a large number of distinct values first, so that hash sets grow beyond their small-table regime
     let mut lines: Vec<String> = (0..filler).map(|i| format!("{}.25", 1000 + i)).collect();
     lines.append(&mut reals);
-    json!({"kind": "consumer", "reals": lines, "mode": *rng.pick(&["group", "distinct", "count-distinct", "array-unique", "minmax", "join"])})
+    json!({"kind": "consumer", "reals": lines, "mode": *rng.pick(&["group", "distinct", "count-distinct", "array-unique", "minmax", "join", "int-default"])})
 }
 
 fn check_consumer(case: &J, obs: &mut Obs) -> Verdict {
@@ -247,6 +247,29 @@ fn check_consumer(case: &J, obs: &mut Obs) -> Verdict {
         eng::exec_batch(&tables, &stmt, &lines).map_err(|e| e.show())
     };
     let as_real = |v: &RV| -> Option<f64> { match v { RV::Real(x) => Some(*x), _ => None } };
+    if mode == "int-default" {
+        // a REAL column whose DEFAULT is written as a whole number: if the definition is accepted at all, the rows that take the
+        // default are REAL values like the others - one group with the rows that read 0 / 0.0, keys in ascending order
+        let defs = "CREATE TABLE t ( { .r } => r REAL DEFAULT 0 , { .one } => one INT ) ;";
+        let Ok(tables2) = eng::tables_from(defs) else { obs.hit("consumer:int-default:definition-refused"); return Verdict::Inconclusive("whole-number-default-of-a-real-column-is-refused".into()) };
+        let nums: Vec<f64> = vals.iter().cloned().filter(|x| x.is_finite()).collect();
+        let lines2: Vec<String> = nums.iter().enumerate().map(|(i, x)| if i % 3 == 0 { "{\"one\":1}".to_string() } else { format!("{{\"r\":{:?},\"one\":1}}", x) }).collect();
+        let eff: Vec<f64> = nums.iter().enumerate().map(|(i, x)| if i % 3 == 0 { 0.0 } else { *x }).collect();
+        let mut want: Vec<(String, i64)> = Vec::new();
+        for v in &eff { let k = real_class_key(*v); if let Some(c) = want.iter_mut().find(|c| c.0 == k) { c.1 += 1; } else { want.push((k, 1)); } }
+        let res = eng::parse("SELECT r , COUNT ( * ) AS n FROM t GROUP BY r").map_err(|e| e.show()).and_then(|st| eng::exec_batch(&tables2, &st, &lines2).map_err(|e| e.show()));
+        return match res {
+            Err(e) => Verdict::Violated(vec![Violation::new("consumer:int-default|error", e)]),
+            Ok(out) => {
+                let mut got: Vec<(String, i64)> = out.rows.iter().map(|r| (match &r[0] { RV::Real(x) => real_class_key(*x), RV::Int(i) => real_class_key(*i as f64), o => o.show() }, match &r[1] { RV::Int(n) => *n, _ => -1 })).collect();
+                let order_ok = { let ks: Vec<f64> = out.rows.iter().filter_map(|r| match &r[0] { RV::Real(x) => Some(*x), RV::Int(i) => Some(*i as f64), _ => None }).collect(); ks.windows(2).all(|w| w[0] < w[1]) };
+                got.sort(); want.sort();
+                if got != want { Verdict::Violated(vec![Violation::new("consumer:int-default|partition", format!("lines {:?}: groups {:?}, reference classes {:?}", lines2, got, want))]) }
+                else if !order_ok { Verdict::Violated(vec![Violation::new("consumer:int-default|order", format!("group keys not ascending: {:?}", out.rows.iter().map(|r| r[0].show()).collect::<Vec<_>>()))]) }
+                else { Verdict::Held }
+            }
+        };
+    }
     match mode {
         "group" => match run("SELECT r , COUNT ( * ) AS n FROM t GROUP BY r") {
             Err(e) => vs.push(Violation::new(format!("consumer:group|{}|error", tag), e)),
